@@ -1,16 +1,17 @@
 #!/bin/sh
-# usage: tools/try_patch.sh <patch.diff> <ID> [ID...]   (env TIER=quick|thorough)
-# Applies a patch to /repo, runs the given checks without touching the evidence files, and reverts.
+# usage: tools/try_patch.sh <patch.diff> <ID> [ID...]   (env TIER=quick|thorough, JOBS=<regexp>, VERIF_BUDGET_S)
+# Applies a change to a scratch worktree of /repo's HEAD (never to /repo itself), runs the given checks
+# against that worktree without touching the evidence files, and removes the worktree.
 set -u
 patch="$1"; shift
 tier="${TIER:-quick}"
-cd /repo || exit 2
-if [ -n "$(git status --porcelain)" ]; then echo "repo dirty, refusing"; exit 2; fi
-git apply "$patch" || { echo "patch does not apply"; exit 2; }
-trap 'git -C /repo checkout -- . ; git -C /repo clean -fdq' EXIT
+wt=$(mktemp -d /tmp/trypatch-XXXXXX)
+git -C /repo worktree add -q --detach "$wt" HEAD || exit 2
+trap 'git -C /repo worktree remove --force "$wt" 2>/dev/null; rm -rf "$wt"; git -C /repo worktree prune' EXIT
+git -C "$wt" apply "$patch" || { echo "patch does not apply"; exit 2; }
 cd /verif
 for id in "$@"; do
-  out=$(VERIF_NO_EVIDENCE=1 bin/vcheck "$id" --tier "$tier" ${JOBS:+--jobs "$JOBS"} 2>/dev/null)
+  out=$(VERIF_REPO="$wt" VERIF_NO_EVIDENCE=1 bin/vcheck "$id" --tier "$tier" ${JOBS:+--jobs "$JOBS"} 2>/dev/null)
   code=$?
   echo "== $id exit=$code"
   echo "$out" | grep -E "^(VIOLATION|KNOWN-FINDING|ERROR|C[0-9]+ tier)" | head -8
